@@ -63,5 +63,58 @@ pos("exp-fmte-int32-arith","decimal_toa.go","		exp = int64(ex) - 1 // -1 because
 pos("sqrt-prerounds-operand","decimal_sqrt.go","	b := x.MantExp(z)\n	z.prec, z.mode = prec, mode","	b := x.MantExp(z)\n	if xprec := 2*uint64(prec) + 2*_DW; uint64(z.prec) > xprec {\n		z.SetPrec(uint(xprec))\n	}\n	z.prec, z.mode = prec, mode","T-UNARY","Sqrt(+F)",note="seed C05")
 S="dec_arith_amd64.s"
 pos("asm-deccpyinv-store-before-load",S,"TEXT decCpyInv(SB),NOSPLIT,$0\n	SUBQ $4, SI\n	JL CV\n\nCU: // n >= 4\n	MOVQ 0(R8)(SI*8), AX\n	MOVQ 8(R8)(SI*8), BX\n	MOVQ 16(R8)(SI*8), CX\n	MOVQ 24(R8)(SI*8), DX\n	MOVQ AX, 0(R10)(SI*8)\n	MOVQ BX, 8(R10)(SI*8)\n","TEXT decCpyInv(SB),NOSPLIT,$0\n	SUBQ $4, SI\n	JL CV\n\nCU: // n >= 4\n	MOVQ 0(R8)(SI*8), AX\n	MOVQ 8(R8)(SI*8), BX\n	MOVQ AX, 0(R10)(SI*8)\n	MOVQ BX, 8(R10)(SI*8)\n	MOVQ 16(R8)(SI*8), CX\n	MOVQ 24(R8)(SI*8), DX\n","ASM","copy-order/decCpyInv",quick=True,note="the shape of seed C07: low words stored before high words are loaded")
+
+INV_OLD="""TEXT decCpyInv(SB),NOSPLIT,$0
+	SUBQ $4, SI
+	JL CV
+
+CU: // n >= 4
+	MOVQ 0(R8)(SI*8), AX
+	MOVQ 8(R8)(SI*8), BX
+	MOVQ 16(R8)(SI*8), CX
+	MOVQ 24(R8)(SI*8), DX
+	MOVQ AX, 0(R10)(SI*8)
+	MOVQ BX, 8(R10)(SI*8)
+	MOVQ CX, 16(R10)(SI*8)
+	MOVQ DX, 24(R10)(SI*8)
+	SUBQ $4, SI		// n -= 4
+	JGE CU			// if n >= 0 goto C4
+CV:
+	ADDQ $3, SI
+	JL CE
+CLoop:
+	MOVQ 0(R8)(SI*8), AX
+	MOVQ AX, 0(R10)(SI*8)
+	SUBQ $1, SI
+	JGE CLoop
+CE:
+	RET
+"""
+INV_RENAMED=INV_OLD.replace("CU","IU").replace("CV","IV").replace("CLoop","ITail").replace("CE","IEnd")
+neg("neg-asm-deccpyinv-labels-renamed",S,INV_OLD,INV_RENAMED,["ASM"],quick=True,note="labels are not part of the rule: loops are found as backward jumps")
+INV_2WAY="""TEXT decCpyInv(SB),NOSPLIT,$0
+	SUBQ $2, SI
+	JL CV
+
+CU: // n >= 2
+	MOVQ 0(R8)(SI*8), AX
+	MOVQ 8(R8)(SI*8), BX
+	MOVQ AX, 0(R10)(SI*8)
+	MOVQ BX, 8(R10)(SI*8)
+	SUBQ $2, SI		// n -= 2
+	JGE CU
+CV:
+	ADDQ $1, SI
+	JL CE
+CLoop:
+	MOVQ 0(R8)(SI*8), AX
+	MOVQ AX, 0(R10)(SI*8)
+	SUBQ $1, SI
+	JGE CLoop
+CE:
+	RET
+"""
+neg("neg-asm-deccpyinv-2way",S,INV_OLD,INV_2WAY,["ASM"],note="a different unroll factor with loads before stores and a matching index step is fine")
+pos("asm-deccpyinv-step-mismatch",S,INV_OLD,INV_OLD.replace("	SUBQ $4, SI		// n -= 4","	SUBQ $3, SI		// n -= 4"),"ASM","lanes/decCpyInv",note="index step differs from the number of lanes")
 json.dump(C,open("seedrules.json","w"),indent=1,ensure_ascii=False)
 print(len(C),"controls")
